@@ -111,7 +111,7 @@ func Run(r *vrun.Run, p Prog) *vsched.Stats {
 		r.Evaluations++
 		r.Transitions += int64(x.Steps())
 		h := x.TraceHash() ^ vrun.Hash(p.Name)
-		if r.State(h) && x.Blocks > 0 {
+		if r.State(h) && (x.Blocks > 0 || p.NoShard) {
 			r.NonTrivial(h)
 		}
 		if x.Outcome != "" {
@@ -136,7 +136,7 @@ func Run(r *vrun.Run, p Prog) *vsched.Stats {
 			}
 			r.Violate(p.Name+": "+sig, detail, replay{Prog: p.Name, Choices: ch})
 		}
-		if r.WantSample() && x.Blocks > 0 {
+		if r.WantSample() && (x.Blocks > 0 || p.NoShard) {
 			r.Sample(map[string]any{"prog": p.Name, "choices": vsched.FormatChoices(x), "status": x.Status().String(), "steps": x.Steps(), "outcome": x.Outcome, "log": x.Log})
 		}
 	}
